@@ -563,8 +563,10 @@ namespace detail_ {
 
 					case modes::width:
 						if (isdigit(c)) {
-							fo.minimum_width *= 10;
-							fo.minimum_width += spec[i] - '0';
+							// A width that does not fit into an int is an illegal spec.
+							if (__builtin_mul_overflow(fo.minimum_width, 10, &fo.minimum_width)
+									|| __builtin_add_overflow(fo.minimum_width, spec[i] - '0', &fo.minimum_width))
+								return false;
 						} else {
 							switch (spec[i]) {
 								case 'b': fo.conversion = format_conversion::binary; break;
